@@ -8,7 +8,7 @@ EXPLANATION = ("Histories of UnionFind operations over symbolic elements (consta
                "set-partition model after every operation; PriorityQueue histories with symbolic real priorities are "
                "compared with a multiset model.")
 BOUNDS = {
-    "quick": "UnionFind: histories of <=3 operations (add/union/find-connected) with int operands in [0,2], tuple operands "
+    "quick": "UnionFind: one operation from every internal forest state on 4 elements (5 in thorough); histories of <=3 operations (add/union/find-connected) with int operands in [0,2], tuple operands "
              "(a,b) with a,b in [0,1], mixed int/str operands; all observers after every operation. PriorityQueue: <=4 "
              "push/pop operations with arbitrary real priorities plus +-inf specials; 6 pushes followed by a full drain.",
     "thorough": "UnionFind: <=4 operations with operands in [0,3] (ints), <=3 for tuple/mixed; PriorityQueue: <=6 operations.",
@@ -190,6 +190,75 @@ def uf_history(L, n, kind, observe_each=True):
     return h
 
 
+def uf_state_step(n):
+    """one step from an ARBITRARY valid internal state: the parent pointers are symbolic (every rooted forest on n nodes, so trees
+    of any depth and any index order - states that only long histories reach), sizes and counts follow the representation
+    invariant; one observer or one union is run and everything is compared with the partition read off the forest"""
+    def h(sx):
+        from mouette.utils import UnionFind
+        elts = [10 + i for i in range(n)]           # elements differ from their indices
+        par = [sx.concrete(sx.int("par%d" % i, 0, n - 1)) for i in range(n)]
+
+        def root(i):
+            for _ in range(n + 1):
+                if par[i] == i:
+                    return i
+                i = par[i]
+            return None
+        roots = [root(i) for i in range(n)]
+        sx.assume(all(r is not None for r in roots))        # representation invariant: parent pointers form a forest
+        uf = UnionFind(elts)
+        uf._par = list(par)
+        # subtree sizes (the invariant only needs them at roots)
+        siz = [0] * n
+        for i in range(n):
+            j = i
+            while True:
+                siz[j] += 1
+                if par[j] == j:
+                    break
+                j = par[j]
+        uf._siz = siz
+        uf.n_comps = len(set(roots))
+        m = Model()
+        for r in sorted(set(roots)):
+            m.blocks.append([elts[i] for i in range(n) if roots[i] == r])
+        first = ["component_mapping", "components", "roots", "component", "connected", "find", "union"][sx.choice("first_operation", 7)]
+        tag = " [first operation on an arbitrary forest state: %s]" % first
+        x, y = elts[sx.choice("x", n)], elts[sx.choice("y", n)]
+        try:
+            if first == "component_mapping":
+                cm = uf.component_mapping()
+                ok = len(cm) == n
+                for a in elts:
+                    ok = ok and a in cm and _same_quiet(cm[a], m.block_of(a))
+                sx.check(ok, "component_mapping()[x] is the block of x" + tag)
+            elif first == "components":
+                comps = uf.components()
+                ok = len(comps) == len(m.blocks) and sum(len(c) for c in comps) == n and all(_same_quiet(c, m.block_of(c[0])) for c in comps if len(c))
+                sx.check(ok, "components() lists the model's partition, every element exactly once" + tag)
+            elif first == "roots":
+                rs = uf.roots()
+                sx.check(len(rs) == len(m.blocks) and len(set(id(m.block_of(uf[r])) for r in rs)) == len(m.blocks),
+                         "roots() has exactly one representative per block" + tag)
+            elif first == "component":
+                sx.check(_same_quiet(uf.component(x), m.block_of(x)), "component(x) is the block of x" + tag)
+            elif first == "connected":
+                sx.check(bool(uf.connected(x, y)) == (m.block_of(x) is m.block_of(y)), "connected(x,y) iff x and y are in the same block" + tag)
+            elif first == "find":
+                r = uf.find(x)
+                sx.check(0 <= r < n and m.block_of(uf[r]) is m.block_of(x), "find() returns the index of an element of x's block" + tag)
+            else:
+                uf.union(x, y)
+                m.union(x, y)
+        except Exception as e:
+            sx.check(False, "operation raised on a valid state" + tag, detail=repr(e))
+            return
+        # whatever ran first, every observer now agrees with the model (queries do not change the partition)
+        observe(sx, uf, m, "int", tag)
+    return h
+
+
 def uf_empty(sx):
     """observers on an empty structure"""
     from mouette.utils import UnionFind
@@ -248,6 +317,36 @@ def pq_history(L, with_inf):
     return h
 
 
+PAYLOADS = [None, "a", {"k": 1}, 1j, 3, (1, "x"), "b", 2.5]
+
+
+def pq_payloads(n):
+    """payloads are opaque: items of any type (not mutually comparable, not hashable) with arbitrary - possibly equal - priorities"""
+    def h(sx):
+        from mouette.utils import PriorityQueue
+        q = PriorityQueue()
+        w = [sx.real("w%d" % i) for i in range(n)]
+        pay = PAYLOADS[:n]
+        pending = set()
+        try:
+            for i in range(n):
+                q.push(pay[i], w[i])
+                pending.add(i)
+            while pending:
+                it = q.pop()
+                idx = [i for i in pending if it.x is pay[i]]
+                sx.check(len(idx) == 1, "pop returns a pending item (payloads of arbitrary types)")
+                if len(idx) != 1:
+                    return
+                pending.discard(idx[0])
+                sx.check(symx.And(*[w[idx[0]] <= w[j] for j in pending]) if pending else True,
+                         "pop hands out a pending item of minimum priority (payloads of arbitrary types)")
+            sx.check(q.empty(), "queue is empty after draining (payloads of arbitrary types)")
+        except Exception as e:
+            sx.check(False, "push / pop raised with payloads that are not comparable with one another", detail=repr(e))
+    return h
+
+
 def pq_push_drain(n):
     """n pushes with arbitrary real priorities, then drain: every pop is a minimum of what is pending"""
     def h(sx):
@@ -280,9 +379,13 @@ def obligations(tier):
            note="UnionFind history over tuples of symbolic ints"),
         Ob("uf-mixed", uf_history(2 if q else 3, 2, "mixed"), covers=COVERS_UF, hash_mode="constant", split=6,
            note="UnionFind history over a mixture of ints and strings"),
+        Ob("uf-state-step", uf_state_step(4 if q else 5), covers=COVERS_UF, split=5,
+           note="one operation from every forest state on %d nodes (arbitrary depth and index order), then all observers" % (4 if q else 5)),
         Ob("uf-empty", uf_empty, covers=COVERS_UF, note="observers on an empty UnionFind"),
         Ob("pq-real", pq_history(4 if q else 6, False), covers=COVERS_PQ, split=5,
            note="PriorityQueue history with symbolic real priorities (ties included)"),
+        Ob("pq-payloads", pq_payloads(4 if q else 5), covers=COVERS_PQ, split=5,
+           note="pushes with payloads of mutually incomparable types and arbitrary (possibly equal) priorities, then a drain"),
         Ob("pq-push-drain", pq_push_drain(6 if q else 7), covers=COVERS_PQ, split=7,
            note="6 pushes with symbolic real priorities then a full drain (every heap shape reachable by pushes)"),
         Ob("pq-inf", pq_history(3 if q else 4, True), covers=COVERS_PQ, split=5,
